@@ -508,7 +508,8 @@ func (w *world) seq(out *c.Out, seq int, r *c.Rng) {
 				ap = append(ap, swaptypes.NewAllowedPool(denoms[p.lo], denoms[p.hi]))
 			}
 		}
-		k.SetParams(ctx, swaptypes.NewParams(ap, dec(fee)))
+		sp := swaptypes.NewParams(ap, dec(fee))
+		kapp.SetParams(w.tApp, ctx, "swap", &sp, func() { k.SetParams(ctx, sp) })
 	}
 	setParams()
 	for _, a := range w.addrs {
